@@ -11,7 +11,9 @@ def run(ctx):
                 "vector lengths 1, 2, nsub and random",
            bad_rate=0.02, empty_rate=0.0, observe_pairs=ctx.pick(32, 70), nvec=ctx.pick(18, 40),
            # a channel spread over two top-level directories whose periods interleave (the reader is given them in either order)
-           extra=lambda c, drf: two_directories(c, drf))
+           extra=lambda c, drf: two_directories(c, drf)
+           # channels of one rate and different file cadences read by one process, coarse cadence first
+           + cc.multi_writer_histories(c, drf, c.pick(8, 150), npairs=12, nvec=6)[0])
 
 
 def two_directories(ctx, digital_rf):
